@@ -23,8 +23,8 @@ def sh(cmd, **kw):
 
 def portable(text):
     head = 'import os as _os\nWT = _os.environ.get("DIMARRAY_TREE", "/repo")\nHERE = _os.path.dirname(_os.path.abspath(__file__))\n'
-    text = re.sub(r'(["\'])/tmp/wt_s\d/_out', r'HERE + \1', text)
-    text = re.sub(r'(["\'])/tmp/wt_s\d', r'WT + \1', text)
+    text = re.sub(r'(["\'])/tmp/wt_[a-z]\d/_out', r'HERE + \1', text)
+    text = re.sub(r'(["\'])/tmp/wt_[a-z]\d', r'WT + \1', text)
     return head + text
 
 
